@@ -122,7 +122,7 @@ def basis_case(draw, min_funcs=1):
     d2 = draw(st.integers(1, 3))
     p = draw(st.integers(2, 4))
     phi = [[fn_spec(draw, d) for _ in range(draw(st.integers(min_funcs, 3)))] for _ in range(p)]
-    return {'d': d, 'd2': d2, 'phi': phi, 'seed': draw(gen.SEED)}
+    return {'d': d, 'd2': d2, 'phi': phi, 'seed': draw(gen.SEED), 'num_form': draw(st.sampled_from(['float', 'float', 'float', 'int', 'fortran']))}
 
 
 @st.composite
@@ -141,6 +141,8 @@ def common_labels(c):
     idx = [{s['index'] for s in f} for f in c['phi']]
     if any(idx[a] & idx[b] for a in range(len(idx)) for b in range(a + 1, len(idx))):
         lab.add('shared_coordinate')
+    if c.get('num_form', 'float') != 'float':
+        lab.add('arrays_' + c['num_form'])
     return lab
 
 
@@ -150,9 +152,17 @@ def body_product(c):
     basis = [[make_fn(s, d) for s in f] for f in c['phi']]
     lab = common_labels(c)
     for tup in c['tuples']:
-        x = rng.uniform(-1, 1, d)
-        b = rng.standard_normal(d)
-        sigma = rng.standard_normal((d, d2))
+        if c.get('num_form') == 'int':
+            # integer-typed point, drift and diffusion (lattice models): the result is still a real number
+            x = rng.integers(-2, 3, d).astype(np.int64)
+            b = rng.integers(-3, 4, d).astype(np.int64)
+            sigma = rng.integers(-2, 3, (d, d2)).astype(np.int64)
+        else:
+            x = rng.uniform(-1, 1, d)
+            b = rng.standard_normal(d)
+            sigma = rng.standard_normal((d, d2))
+            if c.get('num_form') == 'fortran':
+                sigma = np.asfortranarray(sigma)
         specs = [c['phi'][k][tup[k]] for k in range(len(tup))]
         F, grad, hess = product_derivatives(specs, x)
         a = sigma @ sigma.T
@@ -201,6 +211,13 @@ def body_tgedmd(c):
     X = rng.uniform(-1, 1, (d, m))
     sigma = rng.standard_normal((d, d2, m))
     b = None if c['reversible'] else rng.standard_normal((d, m))
+    if c.get('num_form') == 'int':
+        # integer-typed drift and diffusion arrays (the snapshots stay generic: integer snapshots make Psi degenerate)
+        sigma = rng.integers(-2, 3, (d, d2, m)).astype(np.int64)
+        b = None if c['reversible'] else rng.integers(-3, 4, (d, m)).astype(np.int64)
+    elif c.get('num_form') == 'fortran':
+        X, sigma = np.asfortranarray(X), np.asfortranarray(sigma)
+        b = None if b is None else np.asfortranarray(b)
     w = rng.uniform(0.3, 2.0, m) if c['reweight'] else None
     ww = w if w is not None else np.ones(m)
     # explicit Psi, L Psi and grad Psi
